@@ -37,6 +37,7 @@ class Knobs:
     max_modules: int = 6
     allow_relative: bool = True
     single_reexporter: bool = False   # an object is re-exported (listed in __all__ by an importer) at most once
+    member_alias: float = 0.0   # module-level alias of a class member (`meth = C.meth`), importable and re-exportable like a function
 
 
 NAMES = ["a", "b", "c", "f", "g", "h", "x", "y", "K", "L", "Base", "Mix", "_p", "_Q"]
@@ -212,6 +213,13 @@ class Gen:
                 lines += ["    " + l for l in self.class_body(0, q, name)]
                 used.append(name)
                 mydefs.append(name)
+                if self.k.member_alias and rng.random() < self.k.member_alias:
+                    # `al = C.al_m`: a module-level name for a member of the class; other modules import it by that name
+                    # (self.funcs) and may list it in their __all__
+                    al = "al_" + name.strip("_").lower()
+                    what = rng.choice(["def %s_m(self): pass", "@staticmethod\n    def %s_m(): pass", "class %s_m:\n        y = 1"])
+                    lines += ["    " + (what % al), "%s = %s.%s_m" % (al, name, al)]
+                    myfuncs.append(al)
             elif kind == "func":
                 name = rng.choice(used) if used and rng.random() < self.k.dup else rng.choice(FUNCN)
                 lines += ["def %s(a, b=1):" % name, "    '''f %s'''" % name]
